@@ -203,6 +203,125 @@ fn random_one_pair_get(src: &mut Src, obs: &mut Obs) -> Res {
     Ok(())
 }
 
+/// a float literal beyond the range of f64 reaches the data type through `From<f64>`: whatever the engine
+/// hands over, it must be the same for every type (V1 keeps an infinity it is given, V2 - like
+/// serde_json - turns it into its null)
+fn overflow_literal_views(src: &mut Src, obs: &mut Obs) -> Res {
+    let n = 1 + src.below(5);
+    let items: Vec<J> = (0..n)
+        .map(|_| match src.below(8) {
+            0 => J::Null,
+            1 => J::Float(f64::MAX),
+            2 => J::Float(f64::MIN),
+            3 => J::Float(1e300),
+            4 => J::Str("x".into()),
+            5 => J::Bool(true),
+            _ => J::Int(src.range(-2, 2)),
+        })
+        .collect();
+    let doc = J::Arr(items);
+    let lit = *src.pick(&["1e400", "-1e400", "1E+999", "-18e307", "2.5e308"]);
+    let op = src.pick(&Op::ALL).text();
+    let text = if src.bool() { format!("$[?@ {} {}]", op, lit) } else { format!("$[?{} {} @]", lit, op) };
+    obs.eval(3);
+    obs.label("literal-beyond-f64-range");
+    obs.nontrivial(&(text.as_str(), doc.text()), || json!({"query": text, "doc": doc.to_value()}));
+    let rv = run_value(&doc.to_value(), &text);
+    let r1 = run_v1(&V1::from_j(&doc), &text).map(|x| x.0);
+    let r2 = run_v2(&V2::from_j(&doc), &text);
+    for (name, r) in [("V1 (keeps an infinity)", &r1), ("V2 (non-finite doubles become its null)", &r2)] {
+        let same = match (&rv, r) {
+            (Ok(a), Ok(b)) => a.len() == b.len() && a.iter().zip(b).all(|((p1, _), (p2, _))| p1 == p2),
+            (Err(a), Err(b)) => a.starts_with("Err") && b.starts_with("Err"),
+            _ => false,
+        };
+        if !same {
+            return Err(Failure::new(
+                format!("a comparison with a float literal beyond the f64 range selects different nodes on serde_json::Value and on the faithful Queryable type {}", name),
+                json!({"query": text, "doc": doc.to_value(), "on_value": show(&rv), "on_other_type": show(r)}),
+            ));
+        }
+    }
+    Ok(())
+}
+
+/// numbers at the edge of what the accessors can express: integers beyond 2^53 (no double holds them),
+/// whole-valued doubles of that size, integers above i64::MAX.  How the engine compares such pairs is
+/// not judged here - only that it compares them the same way on `Value` and on V1, whose integer,
+/// unsigned and float variants each answer to exactly one accessor.
+fn random_number_views(src: &mut Src, obs: &mut Obs) -> Res {
+    if src.chance(1, 6) {
+        return overflow_literal_views(src, obs);
+    }
+    let big_int = |src: &mut Src| -> i64 {
+        let m = match src.below(4) {
+            0 => (1i64 << 53) + src.range(0, 40),
+            1 => 10_000_000_000_000_000 + src.range(-3, 3),
+            2 => (1i64 << (54 + src.below(9))) + src.range(-3, 3),
+            _ => i64::MAX - src.range(0, 2000),
+        };
+        if src.chance(1, 4) {
+            -m
+        } else {
+            m
+        }
+    };
+    let num = |src: &mut Src| -> J {
+        match src.below(6) {
+            0 | 1 => J::Int(big_int(src)),
+            2 => J::Float(big_int(src) as f64),
+            3 => J::Float(*src.pick(&[1e16, 9007199254740992.0, 1.8014398509481984e16, 9.223372036854776e18, -9.223372036854776e18, 1e19, 0.5])),
+            4 => J::UInt(*src.pick(&[(1u64 << 63), (1u64 << 63) + 1, (1u64 << 63) + 2048, u64::MAX - 1, u64::MAX])),
+            _ => J::Int(src.range(-3, 3)),
+        }
+    };
+    let n = 1 + src.below(4);
+    let mut rows = vec![];
+    for _ in 0..n {
+        let a = num(src);
+        let b = match src.below(4) {
+            // the same value in the other representation, or its neighbour
+            0 => match &a {
+                J::Int(i) => J::Float(*i as f64),
+                J::Float(f) if f.abs() < 9.3e18 => J::Int(*f as i64),
+                x => x.clone(),
+            },
+            1 => match &a {
+                J::Int(i) => J::Int(i.saturating_add(src.range(-2, 2))),
+                x => x.clone(),
+            },
+            _ => num(src),
+        };
+        rows.push(J::Obj(vec![("a".into(), a), ("b".into(), b)]));
+    }
+    let doc = J::Arr(rows);
+    let op = src.pick(&Op::ALL).text();
+    let text = match src.below(4) {
+        0 => format!("$[?@.a {} @.b]", op),
+        1 => format!("$[?@.a {} $[0].b]", op),
+        2 => format!("$[?@.b {} {}]", op, src.pick(&["1e16", "9007199254740992.0", "1.8014398509481984e16", "-9.223372036854776e18", "1e19", "18446744073709551615.0"])),
+        _ => format!("$[?value(@.a) {} value(@.b)]", op),
+    };
+    let v = doc.to_value();
+    obs.eval(2);
+    obs.label("numbers-beyond-2^53");
+    obs.nontrivial(&(text.as_str(), doc.text()), || json!({"query": text, "doc": doc.to_value()}));
+    let rv = run_value(&v, &text);
+    let r1 = run_v1(&V1::from_j(&doc), &text).map(|x| x.0);
+    let same = match (&rv, &r1) {
+        (Ok(a), Ok(b)) => a.len() == b.len() && a.iter().zip(b).all(|((p1, _), (p2, _))| p1 == p2),
+        (Err(a), Err(b)) => a.starts_with("Err") && b.starts_with("Err"),
+        _ => false,
+    };
+    if !same {
+        return Err(Failure::new(
+            "the same comparison of large numbers selects different nodes on serde_json::Value and on a faithful Queryable type with separate integer / unsigned / float variants",
+            json!({"query": text, "doc": doc.to_value(), "on_value": show(&rv), "on_other_type": show(&r1)}),
+        ));
+    }
+    Ok(())
+}
+
 fn shuffle(src: &mut Src, j: &J) -> J {
     match j {
         J::Arr(a) => J::Arr(a.iter().map(|x| shuffle(src, x)).collect()),
@@ -375,6 +494,7 @@ pub fn prop() -> Prop {
         subs: vec![
             Sub { name: "random-diff", kind: Kind::Random { f: random_diff, quick: 240_000, thorough: 4_800_000, len: 500 } },
             Sub { name: "random-object-equality", kind: Kind::Random { f: random_object_equality, quick: 64_000, thorough: 1_280_000, len: 300 } },
+            Sub { name: "random-number-views", kind: Kind::Random { f: random_number_views, quick: 60_000, thorough: 1_200_000, len: 64 } },
             Sub { name: "random-one-pair-get", kind: Kind::Random { f: random_one_pair_get, quick: 120_000, thorough: 2_400_000, len: 500 } },
             Sub { name: "random-unsorted", kind: Kind::Random { f: random_unsorted, quick: 160_000, thorough: 3_200_000, len: 500 } },
         ],
